@@ -10,6 +10,7 @@ prop("C05", pkg="c05",
      thorough=dict(shards=16, scale=20, timeout=3400),
      exhaustive=True,
      fuzz=[('FuzzValidDiff', 90)],
+     builds=[dict(name="default", tags=[], race=False), dict(name="purego", tags=["purego"], race=False, thorough_only=True)],
      technique="bounded-exhaustive enumeration (byte strings, token sequences) + rapid generated/mutated documents, differential against encoding/json",
      level_text="Exploration, exhaustive within the stated bounds: all short strings over the byte-class alphabet and all short token sequences are compared "
                 "with encoding/json.Valid, so any syntax hole expressible in that many symbols is found; every syntax-only consumer is compared with the same "
